@@ -117,7 +117,16 @@ func LoadReplay(path string) (*Replay, error) {
 // and reach measures; merged across runs and workers.
 type Counters map[string]int64
 
-func (c Counters) Add(k string, n int64) { c[k] += n }
+// CountersOff disables counting (edge-free race builds: Go maps carry race
+// hooks inside the runtime, and the counter bags are shared by all tasks).
+var CountersOff bool
+
+func (c Counters) Add(k string, n int64) {
+	if CountersOff {
+		return
+	}
+	c[k] += n
+}
 func (c Counters) Merge(o Counters) {
 	for k, v := range o {
 		c[k] += v
